@@ -22,8 +22,17 @@ const (
 	verifRoot   = "/verif"
 	harnessRoot = "/verif/harness/src"
 	apiFile     = "/verif/harness/vfapi.go"
-	repoSrc     = "/repo/src"
 )
+
+// repoSrc is the module root under analysis: always /repo/src for the registered commands; the
+// environment variable VF_REPO_SRC redirects it to a scratch worktree for seeded-change trials only
+// (the evidence then goes to $VF_EVIDENCE_DIR, never to /verif/evidence).
+var repoSrc = func() string {
+	if p := os.Getenv("VF_REPO_SRC"); p != "" {
+		return p
+	}
+	return "/repo/src"
+}()
 
 type Job struct {
 	Prop    string           `json:"prop"`
